@@ -6,6 +6,7 @@ CONSTANTS
   MaxCalls = 4
   MaxRoutes = 4
   MaxHosts = 4
+  MaxCorsCalls = 1000000
   FullApi = TRUE
   ReqMethods = {"GET", "OPTIONS"}
   ReqHosts = {"", "one.test", "three.test"}
